@@ -38,8 +38,11 @@ def run(ctx):
         raise AnalysisError('filter_output: expected two writers and one reader, found %d/%d' % (len(wr), len(readers)))
     kind = {}
     for name, lst in wr.items():
-        texts = ' '.join(up(v.args[0]) for v, _ in lst)
-        g, b = ('output_good' in texts or "'_good'" in texts), ('output_bad' in texts or "'_bad'" in texts)
+        texts = ' '.join(up(v.args[0]) for v, _ in lst if isinstance(v.args[0], ast.Name))
+        g, b = ('output_good' in texts), ('output_bad' in texts)
+        if g == b:
+            texts = ' '.join(up(v.args[0]) for v, _ in lst)
+            g, b = ("'_good'" in texts), ("'_bad'" in texts)
         if g == b:
             raise AnalysisError('filter_output: cannot classify writer %s (%s)' % (name, texts))
         kind[name] = 'good' if g else 'bad'
@@ -110,7 +113,12 @@ def run(ctx):
         else:
             selector = 'complex'
     # ---- ALG-17
-    if not isinstance(selector, dict) or set(selector) != {'good', 'bad'} or selector['good'][0] is not selector['bad'][0]:
+    if isinstance(selector, dict) and len(selector) == 1:
+        ctx.violation('CFG-4', 'both outcomes of the criterion', where(fo, lp), 'every source is written to the %s file, whatever the criterion says' % list(selector)[0], 'one-file')
+        selector = None
+    if selector is None:
+        pass
+    elif not isinstance(selector, dict) or set(selector) != {'good', 'bad'} or selector['good'][0] is not selector['bad'][0]:
         ctx.undecided('ALG-17', 'good/bad criterion', where(fo, lp), 'the writer is not selected by a single two-way test')
     else:
         test, truth = selector['good']
@@ -124,7 +132,12 @@ def run(ctx):
             C, (D, nd) = ('SET', 'cpd'), boolfn.LT('%s/%s.source.n_data' % (c2, x), 'cpd')
             ref = ({A, B, C, D}, lambda a: (a[A] and (a[B] != nb)) or (a[C] and (a[D] != nd)))
             extra = code[0] - ref[0]
-            if extra:
+            import re
+            known = {x, 'chi2', 'source', 'n_data', 'n_wav', 'n_fits', 'chi', 'cpd', 'av', 'sc', 'len', 'float', 'int', 'valid', 'flux', 'error'}
+            foreign = [a for a in extra if not set(re.findall(r'[A-Za-z_][A-Za-z_0-9]*', ' '.join(str(t) for t in a[1:]))) <= known]
+            if extra and not foreign:
+                ctx.violation('ALG-17', 'good/bad criterion', where(fo, test), 'the criterion reads %s instead of (chi set and chi2[0] < chi) or (cpd set and chi2[0]/n_data < cpd)' % sorted(extra), 'criterion-atoms')
+            elif extra:
                 ctx.undecided('ALG-17', 'good/bad criterion', where(fo, test), 'unrecognised atoms %s' % sorted(extra))
             else:
                 eq, wit, n = boolfn.equivalent(code, ref)
@@ -139,3 +152,31 @@ def run(ctx):
     from .c10 import check_ctor
     check_ctor(ctx)
     common.check_ownership(ctx, only=('filter_output',))
+
+
+FO = 'sedfitter/filter_output.py'
+MUST_FIRE = [
+    ('write to both', [(FO, "            fout_good.write(info)\n        else:", "            fout_good.write(info)\n            fout_bad.write(info)\n        else:")]),
+    ('condition inverted', [(FO, "if (chi and bestchi < chi) or (cpd and bestcpd < cpd):", "if not ((chi and bestchi < chi) or (cpd and bestcpd < cpd)):")]),
+    ('or -> and', [(FO, "if (chi and bestchi < chi) or (cpd and bestcpd < cpd):", "if (chi and bestchi < chi) and (cpd and bestcpd < cpd):")]),
+    ('keep before write', [(FO, "        bestchi = info.chi2[0]\n", "        info.keep(('N', 1))\n        bestchi = info.chi2[0]\n")]),
+    ('cpd divides by n_wav', [(FO, "bestcpd = info.chi2[0] / float(info.source.n_data)", "bestcpd = info.chi2[0] / float(info.source.n_wav)")]),
+    ('continue before write', [(FO, "        bestchi = info.chi2[0]\n", "        if info.n_fits == 0:\n            continue\n        bestchi = info.chi2[0]\n")]),
+    ('good and bad names swapped', [(FO, "fout_good = FitInfoFile(input_fits + '_good', 'w')", "fout_good = FitInfoFile(input_fits + '_bad', 'w')")]),
+    ('threshold on the worst fit', [(FO, "bestchi = info.chi2[0]", "bestchi = info.chi2[-1]")]),
+    ('comparison flipped', [(FO, "(chi and bestchi < chi)", "(chi and bestchi > chi)")]),
+    ('bad file never closed', [(FO, "    fout_bad.close()\n", "")]),
+    ('bad branch writes to good', [(FO, "        else:\n            fout_bad.write(info)", "        else:\n            fout_good.write(info)")]),
+    ('cpd compared with chi', [(FO, "(cpd and bestcpd < cpd)", "(cpd and bestcpd < chi)")]),
+]
+MUST_SILENT = [
+    ('criterion via a named flag', [(FO, "        if (chi and bestchi < chi) or (cpd and bestcpd < cpd):\n            fout_good.write(info)", "        good = (chi and bestchi < chi) or (cpd and bestcpd < cpd)\n        if good:\n            fout_good.write(info)")]),
+    ('comparison written the other way', [(FO, "(chi and bestchi < chi)", "(chi and chi > bestchi)")]),
+    ('branches exchanged with negation', [(FO, "        if (chi and bestchi < chi) or (cpd and bestcpd < cpd):\n            fout_good.write(info)\n        else:\n            fout_bad.write(info)",
+                                           "        if not ((chi and bestchi < chi) or (cpd and bestcpd < cpd)):\n            fout_bad.write(info)\n        else:\n            fout_good.write(info)")]),
+]
+
+
+def thorough(ctx):
+    from .. import selftest
+    selftest.run(ctx, MUST_FIRE, MUST_SILENT)
